@@ -655,7 +655,7 @@ func init() {
 	core.Register(&core.Prop{
 		ID:    "C08",
 		Title: "Iterators are cursors over positions -1..n of the container's sequence",
-		Cases: func(tier string) int { return tierN(tier, 36000, 720000) },
+		Cases: func(tier string) int { return tierN(tier, 36000, 2880000) },
 		Run:   runC08,
 		Rule: "the first cases visit every reachable state of RedBlackTree, AVLTree and BTree (orders 3..6) over universes of up to 8 keys (see exhaustive_small_scope) and sweep a fresh iterator through every position and operation on each; " +
 			"next, a deterministic sweep per iterator type (18 types, two seeds): every n <= 6, every position -1..n reached by two routes, every operation (Next/Prev/Begin/End/First/Last and NextTo/PrevTo with five predicates), followed by reversal steps; " +
